@@ -7,7 +7,9 @@ mkdir -p bin run replay evidence
 cp /repo/go.sum harness/go.sum
 (cd harness && go build -tags verif -o ../bin/harness .)
 if VERIF_ROOT="$(pwd)" ./bin/harness gen -repo /repo -out coq >/dev/null 2>&1; then :; fi
-python3 lib/c11.py "$(pwd)/coq" >/dev/null 2>&1 || true
 python3 -c "import sys; sys.path.insert(0,'lib'); import vlib; vlib.gen_coqproject()"
-(cd coq && coq_makefile -f _CoqProject -o Makefile && timeout 3000 make -j16 >/dev/null)
+(cd coq && coq_makefile -f _CoqProject -o Makefile && timeout 600 make Lib.vo >/dev/null)
+# C11: obligations lia cannot prove are taken out of Gen_C11.v (reported by ./check C11), needs Lib.vo
+python3 lib/c11.py "$(pwd)/coq" >/dev/null 2>&1 || true
+(cd coq && timeout 3000 make -j16 >/dev/null)
 echo setup ok
